@@ -264,7 +264,7 @@ def block_selector(fn):
 def install_block(eng):
     eng.call_contracts.clear()
     eng.loop_specs.clear()
-    from contracts.api_common import ModuleStub, CollectionsStub
+    from contracts.api_common import ModuleStub, CollectionsStub, itertools_module
     base_get = CasadiStub().sym_getattr
 
     class Cas(CasadiStub):
@@ -275,7 +275,7 @@ def install_block(eng):
                 return name
             return base_get(eng, name)
     eng.ext_modules.update({"casadi": Cas(), "numpy": NumpyStub(), "logging": ModuleStub("logging", {"getLogger": stub(lambda eng, *a: NoOp()), "DEBUG": 10}),
-                            "itertools": ModuleStub("itertools", {}), "re": ModuleStub("re", {}), "sys": ModuleStub("sys", {"maxsize": 2 ** 63 - 1}),
+                            "itertools": itertools_module(), "re": ModuleStub("re", {}), "sys": ModuleStub("sys", {"maxsize": 2 ** 63 - 1}),
                             "collections": CollectionsStub()})
     eng.ext_modules.pop("pymoca.backends.casadi.alias_relation", None)
     return eng.load_module(MOD)
